@@ -12,6 +12,7 @@ import (
 	"fmt"
 	"os"
 	"sync"
+	"sync/atomic"
 	"time"
 
 	access "github.com/aperturerobotics/bifrost/rpc/access"
@@ -50,6 +51,10 @@ type stream struct {
 	cancel context.CancelFunc
 	mu     sync.Mutex
 	outs   []string
+	// gate: when non-nil every Send parks until the driver hands out a token (scheduler gate inside the send loop)
+	gate    chan struct{}
+	entered atomic.Int64
+	passed  atomic.Int64
 }
 
 func (s *stream) Context() context.Context       { return s.ctx }
@@ -58,6 +63,14 @@ func (s *stream) MsgRecv(msg srpc.Message) error { return errors.New("unused") }
 func (s *stream) CloseSend() error               { return nil }
 func (s *stream) Close() error                   { s.cancel(); return nil }
 func (s *stream) Send(m *access.LookupRpcServiceResponse) error {
+	if s.gate != nil {
+		s.entered.Add(1)
+		select {
+		case <-s.gate:
+		case <-s.ctx.Done():
+		}
+		s.passed.Add(1)
+	}
 	k := "other"
 	switch {
 	case m.GetExists() && !m.GetRemoved() && !m.GetIdle():
@@ -87,6 +100,7 @@ var watch = []string{"bifrost/rpc/access."}
 func main() {
 	behs := flag.String("behaviours", "", "")
 	outp := flag.String("out", "", "")
+	gated := flag.Bool("gated", false, "replay with every Send parked at a gate: callbacks fire while a batch is being sent")
 	flag.Parse()
 	b, err := os.ReadFile(*behs)
 	if err != nil {
@@ -99,13 +113,23 @@ func main() {
 	out := vio.NewOut(*outp)
 	bi := 0
 	for _, beh := range all {
-		for _, burst := range []bool{false, true} {
+		modes := []bool{false, true}
+		if *gated {
+			modes = []bool{true}
+		}
+		for _, burst := range modes {
 			fb := &fakeBus{}
 			srv := access.NewAccessRpcServiceServer(fb, false, nil)
 			ctx, cancel := context.WithCancel(context.Background())
 			st := &stream{ctx: ctx, cancel: cancel}
+			if *gated {
+				st.gate = make(chan struct{})
+			}
+			sinceRelease := 0
 			done := make(chan error, 1)
-			go func() { done <- srv.LookupRpcService(&access.LookupRpcServiceRequest{ServiceId: "svc", ServerId: "srv"}, st) }()
+			go func() {
+				done <- srv.LookupRpcService(&access.LookupRpcServiceRequest{ServiceId: "svc", ServerId: "srv"}, st)
+			}()
 			settle := func() {
 				if err := quiesce.Wait(watch, nil, 10*time.Second, func() bool {
 					fb.mu.Lock()
@@ -151,8 +175,32 @@ func main() {
 					continue
 				}
 				out.Emit(map[string]any{"e": s.A, "v": s.V})
+				if *gated {
+					// let one parked Send through only after two more callbacks have fired behind it
+					sinceRelease++
+					settle()
+					need := 2
+					if st.passed.Load() == 0 {
+						need = 3 // the first parked Send waits for two callbacks behind it, so the next batch holds two messages
+					}
+					if st.entered.Load() > st.passed.Load() && sinceRelease >= need {
+						st.gate <- struct{}{}
+						sinceRelease = 0
+						settle()
+					}
+					continue
+				}
 				if !burst {
 					checkpoint()
+				}
+			}
+			if *gated {
+				for {
+					settle()
+					if st.entered.Load() == st.passed.Load() {
+						break
+					}
+					st.gate <- struct{}{}
 				}
 			}
 			checkpoint()
